@@ -204,7 +204,7 @@ func init() {
 	reg(vfPkg+".Pure", func(fr *frame, a []value) value {
 		return nil
 	})
-	reg(vfPkg+".Quiesce", func(fr *frame, a []value) value { fr.ex.quiesce(); return nil })
+	reg(vfPkg+".Quiesce", func(fr *frame, a []value) value { fr.ex.rest(2); return nil })
 	reg(vfPkg+".Symbolic", func(fr *frame, a []value) value { return true })
 	reg(vfPkg+".HashAbstract", func(fr *frame, a []value) value { fr.ex.hashAbstract = a[0].(bool); return nil })
 	reg(vfPkg+".PermuteMaps", func(fr *frame, a []value) value {
